@@ -867,172 +867,204 @@ func (n *normaliser) run() {
 	// or the same field of the receiver / of another argument: the parameter stands for that expression. An
 	// assignment `param = <expression>` is put in front of the body, so that the rules see what they saw when the
 	// function read the value itself.
-	for _, f := range fns {
-		key := f.key
-		if nn, ok := renames[f.obj]; ok {
-			key = prefix(f.key) + "|" + nn
-		}
-		want, known := n.inv.Params[key]
-		if !known || f.fd.Body == nil || f.fd.Type.Params == nil {
-			continue
-		}
-		wantParts := strings.Split(want, ";")
-		if len(wantParts) != 3 {
-			continue
-		}
-		oldNames := map[string]bool{}
-		nOld := 0
-		for _, nm := range strings.Split(wantParts[1], ",") {
-			if nm != "" {
-				oldNames[nm] = true
-			}
-			nOld++
-		}
-		if wantParts[1] == "" {
-			nOld = 0
-		}
-		type prm struct {
-			name string
-			idx  int
-		}
-		var cur []prm
-		idx := 0
-		for _, fl := range f.fd.Type.Params.List {
-			if len(fl.Names) == 0 {
-				cur = append(cur, prm{"", idx})
-				idx++
-			}
-			for _, nm := range fl.Names {
-				cur = append(cur, prm{nm.Name, idx})
-				idx++
-			}
-		}
-		if len(cur) <= nOld {
-			continue
-		}
-		var added []prm
-		for _, c := range cur {
-			if c.name != "" && c.name != "_" && !oldNames[c.name] {
-				added = append(added, c)
-			}
-		}
-		if len(added) == 0 || len(added) != len(cur)-nOld {
-			continue
-		}
-		recvName := ""
-		if f.fd.Recv != nil && len(f.fd.Recv.List) == 1 && len(f.fd.Recv.List[0].Names) == 1 {
-			recvName = f.fd.Recv.List[0].Names[0].Name
-		}
-		// call sites (direct calls anywhere in the product packages)
-		type site struct {
-			call *ast.CallExpr
-			pkg  *packages.Package
-		}
-		var sites []site
-		okAll := true
-		for _, pkg := range n.p.Pkgs {
-			if !productPkg(pkg.PkgPath) {
+	threaded := map[*types.Func]map[string]string{} // function -> new parameter -> package-level expression it stands for
+	unthreaded := map[*types.Func]bool{}
+	for pass := 0; pass < 2; pass++ {
+		for _, f := range fns {
+			if unthreaded[f.obj] {
 				continue
 			}
-			for _, file := range pkg.Syntax {
-				called := map[*ast.Ident]*ast.CallExpr{}
-				ast.Inspect(file, func(x ast.Node) bool {
-					if c, ok := x.(*ast.CallExpr); ok {
-						switch fun := c.Fun.(type) {
-						case *ast.Ident:
-							called[fun] = c
-						case *ast.SelectorExpr:
-							called[fun.Sel] = c
-						}
-					}
-					return true
-				})
-				ast.Inspect(file, func(x ast.Node) bool {
-					if id, ok := x.(*ast.Ident); ok && pkg.TypesInfo.Uses[id] == types.Object(f.obj) {
-						if c := called[id]; c != nil && !c.Ellipsis.IsValid() {
-							sites = append(sites, site{c, pkg})
-						} else {
-							okAll = false
-						}
-					}
-					return true
-				})
+			key := f.key
+			if nn, ok := renames[f.obj]; ok {
+				key = prefix(f.key) + "|" + nn
 			}
-		}
-		if !okAll || len(sites) == 0 {
-			continue
-		}
-		var pre []ast.Stmt
-		var notes []string
-		for _, a := range added {
-			text := ""
-			for _, st := range sites {
-				if a.idx >= len(st.call.Args) {
-					text = ""
-					break
+			want, known := n.inv.Params[key]
+			if !known || f.fd.Body == nil || f.fd.Type.Params == nil {
+				continue
+			}
+			wantParts := strings.Split(want, ";")
+			if len(wantParts) != 3 {
+				continue
+			}
+			oldNames := map[string]bool{}
+			nOld := 0
+			for _, nm := range strings.Split(wantParts[1], ",") {
+				if nm != "" {
+					oldNames[nm] = true
 				}
-				arg := st.call.Args[a.idx]
-				repl := ""
-				switch x := arg.(type) {
-				case *ast.Ident:
-					if o := st.pkg.TypesInfo.Uses[x]; o != nil && o.Parent() == o.Pkg().Scope() && o.Pkg() == f.di.pkg.Types {
-						if _, isFn := o.(*types.Func); !isFn {
-							repl = x.Name
+				nOld++
+			}
+			if wantParts[1] == "" {
+				nOld = 0
+			}
+			type prm struct {
+				name string
+				idx  int
+			}
+			var cur []prm
+			idx := 0
+			for _, fl := range f.fd.Type.Params.List {
+				if len(fl.Names) == 0 {
+					cur = append(cur, prm{"", idx})
+					idx++
+				}
+				for _, nm := range fl.Names {
+					cur = append(cur, prm{nm.Name, idx})
+					idx++
+				}
+			}
+			if len(cur) <= nOld {
+				continue
+			}
+			var added []prm
+			for _, c := range cur {
+				if c.name != "" && c.name != "_" && !oldNames[c.name] {
+					added = append(added, c)
+				}
+			}
+			if len(added) == 0 || len(added) != len(cur)-nOld {
+				continue
+			}
+			recvName := ""
+			if f.fd.Recv != nil && len(f.fd.Recv.List) == 1 && len(f.fd.Recv.List[0].Names) == 1 {
+				recvName = f.fd.Recv.List[0].Names[0].Name
+			}
+			// call sites (direct calls anywhere in the product packages)
+			type site struct {
+				call *ast.CallExpr
+				pkg  *packages.Package
+				encl *types.Func
+			}
+			var sites []site
+			okAll := true
+			for _, pkg := range n.p.Pkgs {
+				if !productPkg(pkg.PkgPath) {
+					continue
+				}
+				for _, file0 := range pkg.Syntax {
+					for _, file := range file0.Decls {
+						var encl *types.Func
+						if efd, ok := file.(*ast.FuncDecl); ok {
+							encl, _ = pkg.TypesInfo.Defs[efd.Name].(*types.Func)
 						}
+						called := map[*ast.Ident]*ast.CallExpr{}
+						ast.Inspect(file, func(x ast.Node) bool {
+							if c, ok := x.(*ast.CallExpr); ok {
+								switch fun := c.Fun.(type) {
+								case *ast.Ident:
+									called[fun] = c
+								case *ast.SelectorExpr:
+									called[fun.Sel] = c
+								}
+							}
+							return true
+						})
+						ast.Inspect(file, func(x ast.Node) bool {
+							if id, ok := x.(*ast.Ident); ok && pkg.TypesInfo.Uses[id] == types.Object(f.obj) {
+								if c := called[id]; c != nil && !c.Ellipsis.IsValid() {
+									sites = append(sites, site{c, pkg, encl})
+								} else {
+									okAll = false
+								}
+							}
+							return true
+						})
 					}
-				case *ast.SelectorExpr:
-					base := types.ExprString(x.X)
-					// rooted at a package-level variable of the callee's package
-					if id, ok := x.X.(*ast.Ident); ok {
-						if o := st.pkg.TypesInfo.Uses[id]; o != nil && o.Pkg() == f.di.pkg.Types && o.Parent() == o.Pkg().Scope() {
-							if _, isVar := o.(*types.Var); isVar {
-								repl = base + "." + x.Sel.Name
+				}
+			}
+			if !okAll || len(sites) == 0 {
+				continue
+			}
+			var pre []ast.Stmt
+			var notes []string
+			for _, a := range added {
+				text := ""
+				for _, st := range sites {
+					if a.idx >= len(st.call.Args) {
+						text = ""
+						break
+					}
+					arg := st.call.Args[a.idx]
+					repl := ""
+					switch x := arg.(type) {
+					case *ast.Ident:
+						if o := st.pkg.TypesInfo.Uses[x]; o != nil && o.Parent() == o.Pkg().Scope() && o.Pkg() == f.di.pkg.Types {
+							if _, isFn := o.(*types.Func); !isFn {
+								repl = x.Name
+							}
+						}
+						// handed on: the caller's own new parameter, which stands for a package-level expression
+						if repl == "" && st.encl != nil && st.pkg == f.di.pkg {
+							if t, ok := threaded[st.encl][x.Name]; ok {
+								repl = t
+							}
+						}
+					case *ast.SelectorExpr:
+						base := types.ExprString(x.X)
+						// rooted at a package-level variable of the callee's package
+						if id, ok := x.X.(*ast.Ident); ok {
+							if o := st.pkg.TypesInfo.Uses[id]; o != nil && o.Pkg() == f.di.pkg.Types && o.Parent() == o.Pkg().Scope() {
+								if _, isVar := o.(*types.Var); isVar {
+									repl = base + "." + x.Sel.Name
+								}
+							}
+						}
+						// a field of the receiver of the call
+						if repl == "" && recvName != "" {
+							if se, ok := st.call.Fun.(*ast.SelectorExpr); ok && types.ExprString(se.X) == base {
+								repl = recvName + "." + x.Sel.Name
+							}
+						}
+						// a field of another argument
+						if repl == "" {
+							for _, c := range cur {
+								if c.idx != a.idx && c.idx < len(st.call.Args) && c.name != "" && c.name != "_" && types.ExprString(st.call.Args[c.idx]) == base {
+									repl = c.name + "." + x.Sel.Name
+								}
 							}
 						}
 					}
-					// a field of the receiver of the call
-					if repl == "" && recvName != "" {
-						if se, ok := st.call.Fun.(*ast.SelectorExpr); ok && types.ExprString(se.X) == base {
-							repl = recvName + "." + x.Sel.Name
-						}
+					if repl == "" || (text != "" && text != repl) {
+						text = ""
+						break
 					}
-					// a field of another argument
-					if repl == "" {
-						for _, c := range cur {
-							if c.idx != a.idx && c.idx < len(st.call.Args) && c.name != "" && c.name != "_" && types.ExprString(st.call.Args[c.idx]) == base {
-								repl = c.name + "." + x.Sel.Name
-							}
-						}
-					}
+					text = repl
 				}
-				if repl == "" || (text != "" && text != repl) {
-					text = ""
+				if text == "" {
+					pre = nil
 					break
 				}
-				text = repl
+				// built by hand (no positions), as the other synthesised nodes are
+				var ex ast.Expr
+				for i, part := range strings.Split(text, ".") {
+					if i == 0 {
+						ex = ident(part)
+					} else {
+						ex = &ast.SelectorExpr{X: ex, Sel: ident(part)}
+					}
+				}
+				pre = append(pre, &ast.AssignStmt{Lhs: []ast.Expr{ident(a.name)}, Tok: token.ASSIGN, Rhs: []ast.Expr{ex}})
+				notes = append(notes, fmt.Sprintf("parameter %s of %s stands for %s at every call site", a.name, short(f.obj.FullName()), text))
 			}
-			if text == "" {
-				pre = nil
-				break
+			if len(pre) == 0 {
+				continue
 			}
-			// built by hand (no positions), as the other synthesised nodes are
-			var ex ast.Expr
-			for i, part := range strings.Split(text, ".") {
-				if i == 0 {
-					ex = ident(part)
-				} else {
-					ex = &ast.SelectorExpr{X: ex, Sel: ident(part)}
+			f.fd.Body.List = append(pre, f.fd.Body.List...)
+			n.modified[f.di.decl] = true
+			n.rep.Renamed = append(n.rep.Renamed, notes...)
+			unthreaded[f.obj] = true
+			for _, st := range pre {
+				as := st.(*ast.AssignStmt)
+				text := types.ExprString(as.Rhs[0])
+				root := strings.Split(text, ".")[0]
+				if o := f.di.pkg.Types.Scope().Lookup(root); o != nil {
+					if threaded[f.obj] == nil {
+						threaded[f.obj] = map[string]string{}
+					}
+					threaded[f.obj][as.Lhs[0].(*ast.Ident).Name] = text
 				}
 			}
-			pre = append(pre, &ast.AssignStmt{Lhs: []ast.Expr{ident(a.name)}, Tok: token.ASSIGN, Rhs: []ast.Expr{ex}})
-			notes = append(notes, fmt.Sprintf("parameter %s of %s stands for %s at every call site", a.name, short(f.obj.FullName()), text))
 		}
-		if len(pre) == 0 {
-			continue
-		}
-		f.fd.Body.List = append(pre, f.fd.Body.List...)
-		n.modified[f.di.decl] = true
-		n.rep.Renamed = append(n.rep.Renamed, notes...)
 	}
 	// ---- results packed into a small struct -------------------------------------------------------------------
 	// A known function whose results (A, B, error) became (T, error) with T a new unexported struct{A; B}: the
